@@ -80,12 +80,21 @@ func VHC12Errors() {
 		eol = "\r\n"
 	}
 	prog := ""
+	extraLines := 0
 	for i := 0; i < before; i++ {
 		fill := vh.Bytes("fill"+string(rune('a'+i)), 3)
 		for j := 0; j < len(fill); j++ {
 			vh.Assume(vh.Not(vh.OneOf(fill[j], "\n")))
 		}
-		switch vh.Choose("kind"+string(rune('a'+i)), 2) {
+		switch vh.Choose("kind"+string(rune('a'+i)), 4) {
+		case 2:
+			// a string literal that spans two lines (a raw newline inside the quotes)
+			prog += "BEGIN { s" + string(rune('a'+i)) + " = \"x" + eol + "y\" }" + eol
+			extraLines++
+		case 3:
+			// a regex literal that spans two lines
+			prog += "BEGIN { r" + string(rune('a'+i)) + " = /x" + eol + "y/ }" + eol
+			extraLines++
 		case 0:
 			prog += "# " + fill + eol // comment with arbitrary bytes
 		case 1:
@@ -109,7 +118,7 @@ func VHC12Errors() {
 	vh.Assert(k == f.kind, "C12: fault `"+f.text+"` must be reported with its error kind")
 	line, col, text := posOf(err)
 	vh.Reach("fault reported")
-	vh.Assert(line == before+1, "C12: the reported line is the fault's line")
+	vh.Assert(line == before+extraLines+1, "C12: the reported line is the fault's line")
 	want := f.text
 	if crlf && (after > 0) {
 		want += "\r"
